@@ -202,6 +202,23 @@ class Effects:
             d = fa.single_def(local)
             if d is None:
                 res = AP(("local", local))
+                # a reference obtained on two branches to the same place
+                # (`match opt { Some(ref x) => x, None => opt.insert(v) }`) is that place
+                ds = [x for x in fa.defs().get(local, []) if x[2] != "partial"]
+                if 2 <= len(ds) <= 4 and fa.fn.locals[local]["ty"].startswith(("&", "*")):
+                    cache[key] = res
+                    aps = set()
+                    for (b2, i2, kind2, payload2) in ds:
+                        a2 = None
+                        if kind2 == "call":
+                            a2 = self.ap_call_result(fa, b2, payload2, depth + 1)
+                        elif payload2["k"] == "use" and op_place(payload2["op"]) is not None:
+                            a2 = self.ap_place(fa, op_place(payload2["op"]), depth + 1)
+                        elif payload2["k"] in ("ref", "rawptr"):
+                            a2 = self.ap_place(fa, payload2["place"], depth + 1)
+                        aps.add(a2)
+                    if len(aps) == 1 and None not in aps and list(aps)[0].root[0] == "arg":
+                        res = aps.pop()
             else:
                 b, i, kind, payload = d
                 if kind == "call":
